@@ -20,4 +20,4 @@ For each change k = 1..{n} deliver in {out}/{pid}-<k>/:
  - patch.diff — `git diff` of the change (must apply to a clean checkout with `git apply`);
  - a demonstration: a Go test file (in-package `_test.go`, name it zz_seed_demo_test.go, say where it goes) or a small program, that FAILS with the change applied and PASSES on the clean tree; you must have run it both ways;
  - meta.json — {{"property": "{pid}", "summary": "...what was changed and why it breaks the property...", "needs_to_manifest": "...the specific schedule/fault/sequence/input...", "files_changed": [...], "demo": {{"file": "...", "dest_dir_in_repo": "...", "run": "go test -run ... ./pkg/..."}}, "existing_tests_run": "...command(s) you ran and that they passed..."}}.
-After recording a change, revert the worktree (`git -C {wt} checkout -- . && git -C {wt} clean -fd`) before starting the next one. Keep builds confined to the packages you touch; the machine is shared. Finish with a short summary of the changes you delivered (or why one could not be made to pass the existing tests).""")
+After recording a change, revert the worktree (`git -C {wt} checkout -- . && git -C {wt} clean -fd`) before starting the next one. NEVER use `git stash` (the stash is shared with other people's worktrees of the same repository) and keep any helper scripts inside {out}, not in shared temp paths. Keep builds confined to the packages you touch; the machine is shared. Finish with a short summary of the changes you delivered (or why one could not be made to pass the existing tests).""")
